@@ -387,6 +387,7 @@ func checkEmptinessPredicate(w *World, c *Check, t *tables) {
 		}
 	}
 	c.floor("C01.empty", 30)
+	checkWrittenThenLost(w, c, "C01.W-lost")
 	for _, s := range w.TaggedStructs() {
 		rd := reads[s.Named]
 		if rd == nil {
